@@ -1444,6 +1444,24 @@ class Interp:
             if m == "map":
                 return ("Ok", r)
             return r
+        if m == "try_into" and not args and isinstance(recv, int) and not isinstance(recv, bool):
+            # the target type is not visible at the call; it is taken from the typed parameter of the closure that consumes the result
+            return ("tryinto", recv)
+        if isinstance(recv, tuple) and recv[:1] == ("tryinto",):
+            ty = None
+            if args and isinstance(args[0], dict) and args[0].get("k") == "closure" and args[0].get("params") and args[0]["params"][0].get("k") == "ptype":
+                ty = "".join(args[0]["params"][0].get("ty") or []) if isinstance(args[0]["params"][0].get("ty"), list) else args[0]["params"][0].get("ty")
+            rng = {"i64": (-2**63, 2**63 - 1), "u64": (0, 2**64 - 1), "i32": (-2**31, 2**31 - 1), "u32": (0, 2**32 - 1), "u8": (0, 255), "u16": (0, 65535),
+                   "i8": (-128, 127), "i16": (-32768, 32767), "usize": (0, 2**64 - 1), "isize": (-2**63, 2**63 - 1), "i128": (-2**127, 2**127 - 1),
+                   "u128": (0, 2**128 - 1)}.get((ty or "").replace(" ", "").lstrip("&"))
+            if rng is None:
+                raise Unknown("try_into() whose target type is not visible to the interpreter")
+            recv = ("Ok", recv[1]) if rng[0] <= recv[1] <= rng[1] else ("Err", OPAQUE)
+        if m in ("is_ok_and", "is_err_and") and isinstance(recv, tuple) and recv[0] in ("Ok", "Err") and len(recv) == 2 and args and isinstance(args[0], dict) \
+                and args[0].get("k") == "closure":
+            if (m == "is_ok_and") != (recv[0] == "Ok"):
+                return False
+            return self.call_closure(args[0], [recv[1]])
         if m in ("map", "and_then", "or_else") and isinstance(recv, tuple) and recv[0] in ("Ok", "Err") and len(recv) == 2 and args and isinstance(args[0], dict) \
                 and args[0].get("k") == "closure":
             hit = (m == "or_else" and recv[0] == "Err") or (m in ("map", "and_then") and recv[0] == "Ok")
